@@ -4,6 +4,7 @@ import (
 	"bytes"
 	"context"
 	"fmt"
+	"time"
 
 	"verif/netsim"
 	"verif/vsched"
@@ -112,6 +113,44 @@ func verifyTogetherScenario(replies []string) func() func() []string {
 	}
 }
 
+// verifyWhileBusyScenario: the repository is busy (its lock is held for `hold`, as during a Save or
+// Clean on slow storage) when a connection's verification reply is handled. However long the
+// handler has to wait, the peer is verified exactly when the reply starts with the BSV split header.
+func verifyWhileBusyScenario(reply string, hold time.Duration) func() func() []string {
+	return func() func() []string {
+		store := vstore.New()
+		repo := headers.NewRepository(headers.DefaultConfig(), store)
+		repo.InitializeWithGenesis()
+		shared := lockedHeaders{Repository: repo, mu: &vsched.Mutex{}}
+		peers := bitcoin_reader.NewPeerRepository(store, "")
+		cfg := bitcoin_reader.DefaultConfig()
+		node := bitcoin_reader.NewBitcoinNode("127.0.0.1:8333", "/verif/", cfg, shared, peers)
+		node.VerifOpenOutgoing()
+		node.VerifSetInterrupt(make(chan interface{}))
+		if err := node.VerifCompleteHandshake(bg); err != nil {
+			panic(err)
+		}
+		vsched.GoNamed("maintenance", func() {
+			shared.mu.Lock()
+			vsched.Sleep(hold)
+			shared.mu.Unlock()
+		})
+		conn := &byteConn{r: bytes.NewReader(netsim.Letters[reply])}
+		vsched.GoNamed("reader", func() {
+			node.VerifHandleMessage(bg, conn)
+		})
+		return func() []string {
+			var problems []string
+			want := reply == "headers[bsv-split]" || reply == "headers[bsv-split,unknown]"
+			if got := node.Verified(); got != want {
+				problems = append(problems, fmt.Sprintf("verified-while-repository-busy: the peer whose verification reply was %s is verified=%t (ready=%t), want %t; the repository was busy for %s while the reply was handled", reply, got, node.IsReady(), want, hold))
+			}
+			label(fmt.Sprintf("%s busy=%s verified=%t", reply, hold, node.Verified()))
+			return problems
+		}
+	}
+}
+
 func c03Scenarios(thorough bool) []*scenario {
 	var r []*scenario
 	foreign := []string{"headers[bch-split]", "headers[unknown]", "headers[block1]", "headers[]"}
@@ -122,6 +161,11 @@ func c03Scenarios(thorough bool) []*scenario {
 		}
 	}
 	r = append(r, &scenario{name: "verify-together/bch+bsv+unknown", bounds: []int{0, 1}, body: verifyTogetherScenario([]string{"headers[bch-split]", "headers[bsv-split]", "headers[unknown]"}), steps: 30000})
+	for _, reply := range []string{"headers[bch-split]", "headers[unknown]", "headers[block1]", "headers[bsv-split]"} {
+		for _, hold := range []time.Duration{time.Second, 5 * time.Second, 90 * time.Second} {
+			r = append(r, &scenario{name: fmt.Sprintf("verify-while-busy/%s/%s", reply, hold), bounds: []int{0, 1}, body: verifyWhileBusyScenario(reply, hold), steps: 20000})
+		}
+	}
 	r = append(r, &scenario{name: "verify-together/bsv+bsv", bounds: bounds, body: verifyTogetherScenario([]string{"headers[bsv-split]", "headers[bsv-split]"}), steps: 20000})
 	return r
 }
